@@ -765,3 +765,137 @@ Proof.
   - unfold prepend. cbn [fst snd]. rewrite app_nil_r. reflexivity.
   - intros E'. apply Hne', Hst', E'.
 Qed.
+
+(** * variants used by the encrypted layer *)
+Theorem frames_roundtrip_fuel c seq pos ops fuel :
+  cfg_ok c -> (startSeq <= seq)%Z -> (seq = startSeq -> c_enc c = false) ->
+  (c_enc c = true -> pos mod 4 = 0) -> ops_ok c seq ops -> (length (packets_of ops) < fuel)%nat ->
+  read_all bytes take_flat c fuel seq (frames c seq pos ops) = (packets_of ops, VEof).
+Proof.
+  intros Hc Hge Hst H4 Hok Hf.
+  replace fuel with (length (packets_of ops) + S (fuel - S (length (packets_of ops))))%nat by lia.
+  destruct (read_all_frames c Hc ops seq pos 0%nat [] (S (fuel - S (length (packets_of ops)))) Hok) as (k' & E & Hinv').
+  { repeat split; try lia; try assumption. }
+  cbn [padwords repeat concat app] in E. rewrite app_nil_r in E. rewrite E.
+  destruct Hinv' as (Hk & Hne & _ & _ & _ & Hst').
+  cbn [read_all]. rewrite app_nil_r. rewrite read_packet_end; [|exact Hk|intros E'; apply Hne, Hst', E'].
+  unfold prepend. cbn [fst snd]. rewrite app_nil_r. reflexivity.
+Qed.
+
+Lemma frames_app c o1 : forall seq pos o2,
+  frames c seq pos (o1 ++ o2)
+  = frames c seq pos o1
+    ++ frames c (seq + Z.of_nat (length (packets_of o1)))%Z (pos + lenN (frames c seq pos o1)) o2.
+Proof.
+  induction o1 as [|op r IH]; intros seq pos o2.
+  - cbn [app frames packets_of length]. rewrite Z.add_0_r, lenN_nil, N.add_0_r. reflexivity.
+  - destruct op as [p|]; cbn [app frames packets_of length]; rewrite IH, <- app_assoc; f_equal; f_equal;
+      rewrite lenN_app; f_equal; lia.
+Qed.
+
+Lemma frames_mod4 c ops : forall seq pos,
+  c_enc c = true -> pos mod 4 = 0 -> lenN (frames c seq pos ops) mod 4 = 0.
+Proof.
+  induction ops as [|op r IH]; intros seq pos He Hp; [reflexivity|].
+  destruct op as [p|]; cbn [frames]; rewrite lenN_app.
+  - pose proof (lenN_frame_mod4 c seq p He) as H1.
+    specialize (IH (seq + 1)%Z (pos + lenN (frame c seq p)) He). lia.
+  - destruct (pad_bytes_words c pos (fun _ => Hp)) as (Epad & _).
+    specialize (IH seq (pos + lenN (pad_bytes c pos)) He). rewrite Epad, lenN_padwords in *. lia.
+Qed.
+
+Lemma frames_flushed_aligned c seq pos ops :
+  c_enc c = true -> pos mod 4 = 0 ->
+  (pos + lenN (frames c seq pos (ops ++ [WFlush]))) mod blockSize = 0.
+Proof.
+  intros He Hp. rewrite frames_app, lenN_app. cbn [frames]. rewrite app_nil_r.
+  pose proof (frames_mod4 c ops seq pos He Hp) as H4.
+  destruct (pad_bytes_words c (pos + lenN (frames c seq pos ops))) as (_ & _ & _ & _ & Hal); [intros _; lia|].
+  specialize (Hal He). rewrite N.add_assoc. exact Hal.
+Qed.
+
+Lemma Forall_firstn_ok {A} (P : A -> Prop) (l : list A) : forall n, Forall P l -> Forall P (firstn n l).
+Proof.
+  induction l as [|x l IH]; intros n H; destruct n; cbn [firstn]; try constructor.
+  - inversion H; assumption.
+  - apply IH. inversion H; assumption.
+Qed.
+
+Lemma frames_ok c ops : forall seq pos, ops_ok c seq ops -> bytes_ok (frames c seq pos ops).
+Proof.
+  induction ops as [|op r IH]; intros seq pos Hok; [constructor|].
+  destruct op as [p|]; cbn [frames ops_ok] in *; apply Forall_app; split.
+  - apply frame_ok. apply Hok.
+  - apply IH. apply Hok.
+  - unfold pad_bytes. apply Forall_firstn_ok. vm_compute. repeat constructor.
+  - apply IH. exact Hok.
+Qed.
+
+Lemma packets_of_app o1 o2 : packets_of (o1 ++ o2) = packets_of o1 ++ packets_of o2.
+Proof. induction o1 as [|[p|] r IH]; cbn [app packets_of]; [reflexivity|rewrite IH; reflexivity|exact IH]. Qed.
+
+Lemma ops_ok_app c o1 : forall seq o2, ops_ok c seq o1 ->
+  ops_ok c (seq + Z.of_nat (length (packets_of o1)))%Z o2 -> ops_ok c seq (o1 ++ o2).
+Proof.
+  induction o1 as [|[p|] r IH]; intros seq o2 H1 H2; cbn [app ops_ok packets_of length] in *.
+  - rewrite Z.add_0_r in H2. exact H2.
+  - destruct H1. split; [assumption|]. apply IH; [assumption|].
+    replace (seq + 1 + Z.of_nat (length (packets_of r)))%Z with (seq + Z.of_nat (S (length (packets_of r))))%Z by lia. exact H2.
+  - apply IH; assumption.
+Qed.
+
+(** * corollaries in the form the property is stated *)
+Corollary roundtrip_any_chunking c seq pos ops chunks :
+  cfg_ok c -> (startSeq <= seq)%Z -> (seq = startSeq -> c_enc c = false) ->
+  (c_enc c = true -> pos mod 4 = 0) -> ops_ok c seq ops ->
+  concat chunks = frames c seq pos ops ->
+  read_chunked c seq chunks = (packets_of ops, VEof).
+Proof.
+  intros Hc Hge Hst H4 Hok E. rewrite chunking_irrelevant, E. apply frames_roundtrip; assumption.
+Qed.
+
+Lemma good_poly_at c seq : c_poly c = poly_ieee \/ c_poly c = poly_castagnoli -> good_poly (poly_at c seq).
+Proof.
+  intros H. unfold poly_at. destruct (seq <? 0)%Z; [apply good_poly_ieee|].
+  destruct H as [-> | ->]; [apply good_poly_ieee|apply good_poly_castagnoli].
+Qed.
+
+Lemma nth_split_eq {A} (l : list A) d : forall i, (i < length l)%nat ->
+  l = firstn i l ++ [nth i l d] ++ skipn (S i) l.
+Proof.
+  induction l as [|x l IH]; intros i Hi; [cbn in Hi; lia|].
+  destruct i as [|i]; [reflexivity|]. cbn [firstn nth skipn app]. f_equal. apply IH. cbn in Hi. lia.
+Qed.
+
+Lemma frame_length c seq p :
+  length (frame c seq p) = (16 + length (p_body p) + N.to_nat (align_of c (lenN (p_body p))))%nat.
+Proof.
+  rewrite frame_eq, !app_length.
+  pose proof (lenN_header (lenN (p_body p) + packetOverhead) seq (p_type p)) as H1.
+  pose proof (lenN_nat_w (crc_update (poly_at c seq) 0 (header_bytes (lenN (p_body p) + packetOverhead) seq (p_type p) ++ p_body p))) as H2.
+  pose proof (zeros_length (align_of c (lenN (p_body p)))) as H3.
+  unfold lenN in *. lia.
+Qed.
+
+(** one byte of the sequence number, type, body or CRC of one frame replaced by another value *)
+Theorem single_byte_corruption_rejected c seq pos ops p i b' rest :
+  cfg_ok c -> (startSeq <= seq)%Z -> (seq = startSeq -> c_enc c = false) ->
+  (c_enc c = true -> pos mod 4 = 0) -> ops_ok c seq ops ->
+  let seq' := (seq + Z.of_nat (length (packets_of ops)))%Z in
+  let f := frame c seq' p in
+  good_poly (poly_at c seq') -> pkt_ok c seq' p ->
+  (4 <= i < 16 + length (p_body p))%nat -> b' < 256 -> b' <> nth i f 0 ->
+  read_stream c seq (frames c seq pos ops ++ (firstn i f ++ [b'] ++ skipn (S i) f) ++ rest)
+  = (packets_of ops, VErr).
+Proof.
+  intros Hc Hge Hst H4 Hok seq' f HP Hp Hi Hb Hne.
+  pose proof (frame_length c seq' p) as Hlen. fold f in Hlen.
+  apply (corrupted_stream_rejected c seq pos ops p (firstn i f) [nth i f 0] [b'] (skipn (S i) f) rest); try assumption.
+  - fold seq' f. apply nth_split_eq. lia.
+  - rewrite firstn_length. lia.
+  - fold seq' f. unfold lenN in *. rewrite skipn_length. lia.
+  - reflexivity.
+  - cbn. lia.
+  - intros E. injection E as E. contradiction.
+  - constructor; [exact Hb|constructor].
+Qed.
